@@ -119,6 +119,18 @@ def routines_from_json(doc: dict):
         infos.append(T.SsbRoutineInfo(T.SsbRoutineType[r["type"]], r["linked_to"], r["linked_to_name"]))
         if r["type"] == "COROUTINE":
             coros.append(T.SsbCoroutine(i, r["coro"]))
+    # the coroutine table is a mapping id -> name: its order, and entries for ids that are not routines of this set,
+    # carry no meaning (a caller may pass the game's complete table)
+    table = doc.get("coro_table")
+    if table:
+        for cid, name in table.get("extra", []):
+            coros.append(T.SsbCoroutine(cid, name))
+        order = table.get("order")
+        if order == "reversed":
+            coros.reverse()
+        elif order == "by_name":
+            coros.sort(key=lambda c: (c.name, c.id))
+    for i, r in enumerate(doc["routines"]):
         rops.append(
             [
                 T.SsbOperation(o["off"], T.SsbOpCode(-1, o["op"]), [param_from_json(p) for p in o["params"]])
